@@ -88,6 +88,84 @@ Definition s_le (a b : sset) : bool :=
 Definition s_range (a : sset) (lo hi : Z) : sset :=
   filter (fun kv => (lo <=? snd kv) && (snd kv <=? hi)) a.
 
+(* LIST_RANGE(list, lo, hi) where a bound is an int or a list.  A list bound stands for
+   a value: the LOWER bound for the smallest value of the bound list, the UPPER bound
+   for its greatest value.  An empty bound list leaves that side open (0 below,
+   the greatest int above), as the reference runtime's ListWithSubRange does. *)
+Inductive sbound := BInt (z : Z) | BList (s : sset).
+Definition s_lower (b : sbound) : Z :=
+  match b with
+  | BInt z => z
+  | BList s => match s_min_value s with Some v => v | None => 0 end
+  end.
+Definition s_upper (b : sbound) : Z :=
+  match b with
+  | BInt z => z
+  | BList s => match s_max_value s with Some v => v | None => i32_max end
+  end.
+Definition s_range_b (a : sset) (lo hi : sbound) : sset := s_range a (s_lower lo) (s_upper hi).
+
+(* LIST_MIN / LIST_MAX: the one-item list of the item with the smallest / greatest value.
+   Several items can share that value (items of different declarations, or a declaration
+   that repeats a value); the total order (value, origin name, item name) decides: the
+   set is kept sorted by (origin name, item name), so the least such entry is the FIRST
+   item with the smallest value and the greatest one the LAST item with the greatest value. *)
+Definition s_min_item (a : sset) : option (listitem * Z) :=
+  match s_min_value a with
+  | Some m => find (fun kv => snd kv =? m) a
+  | None => None
+  end.
+Definition s_max_item (a : sset) : option (listitem * Z) :=
+  match s_max_value a with
+  | Some m => find (fun kv => snd kv =? m) (rev a)
+  | None => None
+  end.
+Definition s_single (o : option (listitem * Z)) : sset :=
+  match o with Some kv => [kv] | None => [] end.
+Definition s_min_list (a : sset) : sset := s_single (s_min_item a).
+Definition s_max_list (a : sset) : sset := s_single (s_max_item a).
+
+(* the item of a declaration with a given value; when the declaration gives that value
+   to several items, the one with the smallest name *)
+Definition s_item_with_value (d : listdef) (v : Z) : option listitem :=
+  match sort_by text_cmp (map fst (filter (fun nv : text * Z => snd nv =? v) (snd d))) with
+  | nm :: _ => Some (mkItem (Some (fst d)) nm)
+  | [] => None
+  end.
+Definition s_find_def (ds : list listdef) (name : text) : option listdef :=
+  find (fun d : listdef => text_eqb (fst d) name) ds.
+
+(* list + n / list - n: every item is replaced by the item of the SAME declaration whose
+   value is the item's value shifted by [delta] (32-bit integer arithmetic); an item
+   without such a neighbour is dropped *)
+Definition s_shift_item (ds : list listdef) (delta : Z) (kv : listitem * Z) : option (listitem * Z) :=
+  match it_origin (fst kv) with
+  | None => None
+  | Some o =>
+      match s_find_def ds o with
+      | None => None
+      | Some d =>
+          let t := wrap32 (snd kv + delta) in
+          match s_item_with_value d t with
+          | Some k' => Some (k', t)
+          | None => None
+          end
+      end
+  end.
+Definition s_shift (ds : list listdef) (a : sset) (delta : Z) : sset :=
+  fold_left (fun s kv => match s_shift_item ds delta kv with
+                         | Some (k', t) => s_insert k' t s
+                         | None => s
+                         end) a [].
+
+(* ListName(n): the one-item list of the item of LIST ListName with value n; empty when
+   no item has that value; no result at all when there is no such LIST *)
+Definition s_from_int (ds : list listdef) (name : text) (n : Z) : option sset :=
+  match s_find_def ds name with
+  | None => None
+  | Some d => Some (match s_item_with_value d n with Some k => [(k, n)] | None => [] end)
+  end.
+
 (* ---------- canonical representations ---------- *)
 Lemma key_lt_trans : forall a b c, key_lt a b -> key_lt b c -> key_lt a c.
 Proof. unfold key_lt. intros. eapply (sc_trans _ key_cmp_strict); eassumption. Qed.
